@@ -31,7 +31,9 @@ import (
 	"sort"
 	"strings"
 	"time"
+	"unicode/utf8"
 
+	"github.com/gogs/chardet"
 	"github.com/spf13/afero"
 
 	"github.com/ARM-software/golang-utils/utils/commonerrors"
@@ -146,15 +148,16 @@ func (w *world) abs(p string) string {
 }
 
 var tmpBase string
+var worldCounter int
 
 func newWorld(backend string) *world {
 	w := &world{backend: backend}
 	if backend == "os" {
-		r, err := os.MkdirTemp(tmpBase, "w")
-		if err != nil {
+		worldCounter++
+		w.root = filepath.Join(tmpBase, fmt.Sprintf("w%d", worldCounter))
+		if err := os.MkdirAll(w.root, 0o755); err != nil {
 			panic(err)
 		}
-		w.root = r
 		w.inner = filesystem.NewExtendedOsFs()
 	} else {
 		w.root = vroot
@@ -374,6 +377,26 @@ func coqOp(s string) string {
 var cvShape bool // shape of the ".." test in the tree under test (detected through the hook)
 
 // transcoding table: every non-ASCII candidate extraction path -> hook result (virtual paths)
+// The charset detection the library relies on (gogs/chardet) runs its recognisers concurrently and sorts their
+// answers by confidence with an unstable sort: when the two best answers have the same confidence the detected charset
+// (hence the converted path) varies from call to call.  Such paths cannot be predicted by any function of the input;
+// scenarios containing one are judged by the oracle only (no correspondence case).
+func detectionTied(p string) bool {
+	res, err := chardet.NewTextDetector().DetectAll([]byte(p))
+	if err != nil || len(res) < 2 {
+		return false
+	}
+	best, second := -1, -1
+	for _, x := range res {
+		if x.Confidence > best {
+			best, second = x.Confidence, best
+		} else if x.Confidence > second {
+			second = x.Confidence
+		}
+	}
+	return best == second
+}
+
 func trTable(w *world, es []entry, dest string, rec bool, tbl map[string]string) {
 	for _, e := range es {
 		if e.isDir() {
@@ -387,6 +410,9 @@ func trTable(w *world, es []entry, dest string, rec bool, tbl map[string]string)
 			}
 		}
 		if !ascii {
+			if !utf8.ValidString(p) && detectionTied(p) {
+				tbl["unstable"] = "yes"
+			}
 			q, err := filesystem.VerifDetermineUnzippedFilepath(p)
 			if err != nil {
 				tbl[w.virt(p)] = "None"
@@ -450,6 +476,10 @@ func runUnzip(r *h.Run, sc scenario, emit bool) {
 	if emit {
 		tbl := map[string]string{}
 		trTable(w, sc.Entries, top, sc.Recursive, tbl)
+		if tbl["unstable"] != "" {
+			r.Count("transcoding-tie:oracle-only")
+			return
+		}
 		keys := make([]string, 0, len(tbl))
 		for k := range tbl {
 			keys = append(keys, k)
@@ -746,8 +776,10 @@ func main() {
 		"non-UTF-8, UTF-8 and ISO-2022 escape bytes); sanitiser hook: destination shapes x names; path functions vs path/filepath. " +
 		"non-trivial = some name contains '..', a backslash, an escape byte, a non-ASCII byte or is a nested archive; distinct by full scenario")
 	var err error
-	tmpBase, err = os.MkdirTemp("", "verif-c02-*")
-	if err != nil {
+	// a sandbox whose name depends on the seed only: the charset detection sees the whole path, random names would make runs differ
+	tmpBase = filepath.Join(os.TempDir(), fmt.Sprintf("verif-c02-s%d", r.Seed))
+	_ = os.RemoveAll(tmpBase)
+	if err = os.MkdirAll(tmpBase, 0o755); err != nil {
 		panic(err)
 	}
 	defer os.RemoveAll(tmpBase)
